@@ -84,7 +84,7 @@ def cases(tier, seed, shard, nshards):
     for i in range(6 if tier == "quick" else 600):
         yield uncontended_case(rng)
     for i in range(N_SIM[tier]):
-        yield _sim.random_sim_case(rng, small=rng.random() < 0.8, allow_pp_single=False)
+        yield _sim.random_sim_case(rng, small=rng.random() < 0.8, allow_pp_single=False, algos=_sim.ALGOS_PLUS)
     if tier == "thorough" and shard < 4:
         yield _sim.regression_case(shard)
 
